@@ -14,7 +14,7 @@ CHECKS = {
         level='model_checking', design='6/C01',
         technique='explicit-state exploration of all Turing-jump futures on a VM + bounded-exhaustive program/input enumeration + reference-trace conformance',
         text='Every enumerated well-typed sequential program (families E expressions x use positions, S statement sequences, F function '
-             'protocols incl. explicit re-entry of @is_you, A entry binding, O the same functions called -- hence generated -- in every order) is compiled by hidc from the working tree and run on the exploring VM at several word '
+             'protocols incl. explicit re-entry of @is_you, A entry binding, O the same functions called -- hence generated -- in every order, N one name bound as a global of every kind and shadowed by every kind of binder) is compiled by hidc from the working tree and run on the exploring VM at several word '
              'sizes; the committed event trace must equal the reference interpreter trace and no monitor may fire on any explored '
              '(including speculative) state.'),
     'C02': dict(
@@ -22,7 +22,7 @@ CHECKS = {
         technique='explicit-state exploration of all Turing-jump futures on a VM + bounded-exhaustive enumeration of try bodies, try histories and ?? uses + reference interpreter that resolves the same choice points by backtracking',
         text='Every enumerated time-travel program (T: single try with all bodies of <=2 atoms incl. preempt/loops/defeat-function calls '
              'x undo/stop x handler bodies; H: ordered pairs/triples of tries in line, in a loop and across calls; Q: ?? operands x use '
-             'positions; P: preemptive defeat functions x continuations, checked and unchecked; R: returns from inside tries; O: you-functions of every kind '
+             'positions; P: preemptive defeat functions x continuations, checked and unchecked; loops containing preempt blocks whose bodies end in every way; R: returns from inside tries; O: you-functions of every kind '
              'generated in every order) is run with every future of every '
              'Turing jump explored; the committed trace must equal the trace of the backtracking reference interpreter.'),
     'C05': dict(
@@ -30,7 +30,7 @@ CHECKS = {
         technique='explicit-state exploration of all Turing-jump futures on a VM + exhaustive boundary grids of indices, lengths and divisors + reference-trace conformance',
         text='Each fault family (index x length x element type x storage x access; division/modulo operands over a 7x7 boundary grid in 13 '
              'syntactic positions; array lengths incl. negative, oversize and cannot-fit, as run-time values and as compile-time constants; constant '
-             'indices into constant strings and tables; return of preemptive defeat functions) '
+             'indices into constant strings and tables; indices held in a place the statement itself changes (GIDX); lengths taken from the .length of a much longer narrower array (LENL); chained divisions by constants whose product wraps (DIVCH); return of preemptive defeat functions) '
              'is executed on the VM; the committed trace must equal the reference trace, which contains the fault flags exactly when '
              'the source semantics raise the fault, at the faulting operation, with nothing after them.'),
     'C09': dict(
@@ -38,7 +38,7 @@ CHECKS = {
         technique='explicit-state exploration on a VM of one operator program per type pair on an exhaustive boundary-value grid; oracle computed with Python integers and cross-checked against the reference interpreter',
         text='Every operator and cast, in value, branch and !truth_is_defeat position (try/undo, try/stop, inside a defeat function), '
              'for int/byte operand mixes on all pairs of a boundary grid per word size; family M: one run-time operand against a compile-time '
-             'constant (reference-interpreter oracle); unary operators and casts on every 16-bit value (thorough).'),
+             'constant, family CHAIN: one run-time operand and two constants on both sides of every wrap, family BL: bools/bytes/ints against a literal with == and != in every position (reference-interpreter oracle); unary operators and casts on every 16-bit value (thorough).'),
     'C17': dict(
         level='model_checking', design='6/C17',
         technique='explicit-state exploration on a VM with memory-entitlement monitor; exhaustive 16-bit value range and length range; stack-size sweep down to one word',
@@ -55,12 +55,12 @@ CHECKS = {
         level='model_checking', design='6/C04',
         technique='explicit-state exploration on a VM with a per-access memory-entitlement monitor on every explored state + exhaustive stack-size sweep (1..S_min+8 words) + reference-trace conformance with canaries',
         text='Family M (frames x arrays of every element type x callees x element calls/temporaries x try/stop) is run at every stack size '
-             'from one word up; each load/store/jump on each explored path is classified by its base operand and checked against live '
+             'from one word up (plus family LENL: dynamic arrays whose byte size wraps the word although their length is legal, at a grid of stack sizes); each load/store/jump on each explored path is classified by its base operand and checked against live '
              '(ap, fp) and live array extents; below S_min the run must be a clean stack_overflow, from S_min on it must equal the reference.'),
     'C08': dict(
         level='model_checking', design='6/C08',
         technique='explicit-state exploration on a VM with an (fp, ap) scope monitor + stack-footprint invariance over iteration counts found by exhaustive stack sweeps + reference-trace conformance',
-        text='Family X (scope kind x allocation x exit route incl. break/continue/return/defeat->stop/defeat->undo, run 1,2,3,5 times) with '
+        text='Family X (scope kind incl. tail blocks and stop handlers that leave by break/continue/return x allocation x exit route incl. break/continue/return/defeat->stop/defeat->undo, run 1,2,3,5 times) with '
              'canary arrays; S_min from a full sweep must not depend on the iteration count; (fp, ap) must be unchanged across every '
              'non-declaration statement, stable at loop heads and restored at loop exits on every explored state.'),
     'C15': dict(
@@ -79,7 +79,7 @@ CHECKS = {
         level='exploration', design='6/C07',
         technique='bounded-exhaustive enumeration of typed atoms in every typed context against an independent reference typing judgement; overload binding decided by running the compiled program on the exploring VM',
         text='84 typed atoms in every declaration/assignment/argument/return/operand/cast/condition/index context (full 84x84 operator grid in '
-             'the thorough tier), 78 scope/shape rule programs and all ordered sets of <=3 overloads; accept/reject must equal the verdict of '
+             'the thorough tier; assignment targets incl. parameters of every type, their elements and loop variables), 78 scope/shape rule programs and all ordered sets of <=3 overloads; accept/reject must equal the verdict of '
              'hv.ref.types (three-valued; undocumented corners are skipped and counted), rejections must be TypeCheckErrors, and the '
              'overload that actually runs must be the one the documented rule selects.',
         note='Trusted base: hv.ref.types (typing judgement written from the README) and hv.ref.parser; VM + reference interpreter for overload binding.'),
@@ -94,7 +94,7 @@ CHECKS = {
         level='exploration', design='6/C12',
         technique='exhaustive enumeration of texts over token, symbol, integer-literal and escape alphabets compared token-by-token (class, value, span) with an independent maximal-munch tokenizer; re-layout metamorphic check on token and instruction streams',
         text='Every token alone and every ordered token pair under 9 separators, all symbol strings and integer-alphabet strings up to a '
-             'length bound, every byte/character/unicode escape, and every seed program under 6 layout policies.',
+             'length bound, every byte/character/unicode escape, 40 character sequences that Unicode normalisation or case mapping would change, and every seed program under 6 layout policies.',
         note='Trusted base: hv.ref.lexer (written from the README token classes). Layout checks compile with hidc but execute nothing.'),
     'C10': dict(
         level='exploration', design='6/C10',
@@ -106,7 +106,7 @@ CHECKS = {
     'C13': dict(
         level='model_checking', design='6/C13',
         technique='exhaustive byte-value enumeration of constants (every byte, byte pairs, lengths, array shapes) run on the exploring VM behind the strict assembler, compared with the reference interpreter',
-        text='String/char literals with every byte value in 12 uses, ordered byte pairs, every length 0..64, and constant arrays of every '
+        text='String/char literals with every byte value in 12 uses, ordered byte pairs, every length 0..64, 20 dangerous byte sequences at every position of a 150-byte literal and 12 characters at every position of 48-element character tables, and constant arrays of every '
              'element type, length, storage class and bool pattern are compiled, must assemble, and must print exactly the denoted bytes.'),
     'C14': dict(
         level='model_checking', design='6/C14',
@@ -124,10 +124,10 @@ CHECKS = {
              'reject programs with a statement the reference never reaches and must not change code otherwise.'),
     'C18': dict(
         level='model_checking', design='6/C18',
-        technique='configuration enumeration: fresh-process compiles under 16-66 hash seeds, exhaustive stack-size sweeps, word-size twins on the exploring VM, lint twins',
-        text='Seed programs are compiled in separate processes under each PYTHONHASHSEED and must be byte-identical; completed runs are swept '
+        technique='configuration enumeration: fresh-process compiles under 16-66 hash seeds in four different compilation orders plus one fresh process per (program, configuration), exhaustive stack-size sweeps, word-size twins on the exploring VM, lint twins',
+        text='Seed programs are compiled in separate processes under each PYTHONHASHSEED (each in a different order of programs and configurations) and alone in a process of their own, and must be byte-identical; completed runs are swept '
              'over every larger stack size; runs whose 16-bit reference execution never wraps must be identical at W 2,3,4,8; --lint either '
-             'rejects or leaves the assembly unchanged.'),
+             'rejects or leaves the assembly unchanged (also on 405 programs whose conditions the compiler can decide).'),
 }
 
 PENDING = {
